@@ -1,11 +1,11 @@
 package simkit
 
 import (
-	"strconv"
 	"fmt"
 	"io"
 	"net"
 	"os"
+	"strconv"
 	"strings"
 	"sync"
 	"time"
@@ -500,18 +500,22 @@ func (r *simRegistrar) Resolve(name gen.Atom) ([]gen.Route, error) {
 	}
 	return append([]gen.Route(nil), rt...), nil
 }
-func (r *simRegistrar) ResolveProxy(name gen.Atom) ([]gen.ProxyRoute, error) { return nil, gen.ErrNoRoute }
+func (r *simRegistrar) ResolveProxy(name gen.Atom) ([]gen.ProxyRoute, error) {
+	return nil, gen.ErrNoRoute
+}
 func (r *simRegistrar) ResolveApplication(name gen.Atom) ([]gen.ApplicationRoute, error) {
 	return nil, gen.ErrNoRoute
 }
-func (r *simRegistrar) RegisterProxy(to gen.Atom) error                          { return gen.ErrUnsupported }
-func (r *simRegistrar) UnregisterProxy(to gen.Atom) error                        { return gen.ErrUnsupported }
+func (r *simRegistrar) RegisterProxy(to gen.Atom) error                           { return gen.ErrUnsupported }
+func (r *simRegistrar) UnregisterProxy(to gen.Atom) error                         { return gen.ErrUnsupported }
 func (r *simRegistrar) RegisterApplicationRoute(route gen.ApplicationRoute) error { return nil }
 func (r *simRegistrar) UnregisterApplicationRoute(name gen.Atom) error            { return nil }
 func (r *simRegistrar) Nodes() ([]gen.Atom, error)                                { return nil, gen.ErrUnsupported }
-func (r *simRegistrar) Config(items ...string) (map[string]any, error)            { return nil, gen.ErrUnsupported }
-func (r *simRegistrar) ConfigItem(item string) (any, error)                       { return nil, gen.ErrUnsupported }
-func (r *simRegistrar) Event() (gen.Event, error)                                 { return gen.Event{}, gen.ErrUnsupported }
+func (r *simRegistrar) Config(items ...string) (map[string]any, error) {
+	return nil, gen.ErrUnsupported
+}
+func (r *simRegistrar) ConfigItem(item string) (any, error) { return nil, gen.ErrUnsupported }
+func (r *simRegistrar) Event() (gen.Event, error)           { return gen.Event{}, gen.ErrUnsupported }
 func (r *simRegistrar) Info() gen.RegistrarInfo {
 	return gen.RegistrarInfo{Server: "simnet", Version: r.Version()}
 }
